@@ -246,6 +246,14 @@ try {
             return 1;
         }
         if (verbose) fprintf(stderr, "got input tx #%" PRId64 " %s:\n%s\n", instance.txin_index, instance.txin->GetHash().ToString().c_str(), instance.txin->ToString().c_str());
+    } else if (selected > -1 && instance.tx) {
+        // --select without --txin (an explicit script checked against input <n> of --tx): it used to be ignored, the signature checker was always
+        // built for input 0
+        if ((size_t)selected >= instance.tx->vin.size()) {
+            fprintf(stderr, "error: --select=%d, but the transaction given with --tx has %zu input(s)\n", selected, instance.tx->vin.size());
+            return 1;
+        }
+        instance.txin_index = selected;
     }
     char* script_str = nullptr;
     if (pipe_in) {
